@@ -287,6 +287,14 @@ def dense_cases(ctx):
             out.append((arc_c, 1.07 * 10 * (1 - math.cos(step * min(20, count // 3 + 1) / 2))))
             straight = tuple((float(k), 0.0) for k in range(count)) + ((float(count - 1), 1.0),)
             out.append((straight, 0.25))
+    # ... and, for the larger constants, one dense straight stroke of that many vertices (and a
+    # few dozen more) that runs past its turning point and doubles back: the window supersample
+    # tests grows by one vertex at a time, so it crosses every length on the way
+    for const in core.harvest_ints(_lib(), low=3001, high=10000 if not ctx.thorough else 40000):
+        count = const + 60
+        stroke = tuple((0.01 * k, 0.0) for k in range(count)) + ((0.003 * count, 0.0),
+                                                                  (0.003 * count, 5.0))
+        out.append((stroke, 0.05))
     arc = tuple((10 * math.sin(0.001 * k), 10 - 10 * math.cos(0.001 * k)) for k in range(601))
     out += [(arc, tol) for tol in (0.002, 0.01, 0.03)]
     spiral = tuple(((1 + 0.002 * k) * math.cos(0.01 * k), (1 + 0.002 * k) * math.sin(0.01 * k))
@@ -321,6 +329,48 @@ def dense_cases(ctx):
             out.append((tuple((y, x) for x, y in path), step / 4))
             out.append((tuple(reversed(path)), step / 4))
     return out
+
+
+def wide_windows(ctx):
+    """One window of very many vertices handed to the predicate directly (a window length past
+    which the code switches method is a number written in its source: every harvested constant
+    up to 100000, one below to two above, and twice it): integer coordinates, so the exact
+    verdict is beyond doubt.  Shapes: the stroke overshoots the chord's far end and returns, it
+    starts by backing away from the chord, it bulges once in the middle, it zigzags within
+    reach.  Returns (points, tolerances) pairs."""
+    consts = [c for c in core.harvest_ints(_lib(), low=3001, high=100000)]
+    sizes = sorted({n for c in consts for n in (c - 1, c, c + 1, c + 2, 2 * c + 1)})
+    if not ctx.thorough:
+        sizes = [n for n in sizes if n <= 40000]
+    out = []
+    for count in sizes:
+        inner = count - 2
+        far = inner + 5
+        over = ((0, 0),) + tuple((k + 1, 0) for k in range(inner - 1)) + ((far, 0), (far // 3, 0))
+        out.append((over, (0.5, far // 2, far)))
+        back = ((far // 2, 0),) + tuple((max(far // 2 - 1 - k, 0), 0) for k in range(inner // 2)) \
+            + tuple((k, 0) for k in range(inner - inner // 2)) + ((far, 0),)
+        out.append((back, (0.5, far // 4, far)))
+        bulge = tuple((k, 2 if k == count // 2 else 0) for k in range(count))
+        out.append((bulge, (1, 2, 3)))
+        zig = tuple((k, k % 2) for k in range(count - 1)) + ((count - 1, 0),)
+        out.append((zig, (0.5, 1, 2)))
+    return out
+
+
+def _wide_chunk(cases):
+    part = core.Part()
+    for points, tols in cases:
+        for tol in tols:
+            bad, _tie = check_predicate(points, tol)
+            part.count("predicate_cases")
+            part.count("wide_window_cases")
+            for clause, msg in bad:
+                short = f"<{len(points)} vertices: {list(points[:3])} ... {list(points[-3:])}>"
+                part.violation(f"{clause}:wide:{len(points)}:{points[1]}:{points[-1]}:{tol}",
+                               msg.replace(str(points), short)[:600],
+                               {"kind": "pred", "points": [list(p) for p in points], "tol": tol})
+    return part
 
 
 def _dense_chunk(cases):
@@ -394,6 +444,8 @@ def run(ctx):
         jobs.append(("scaled", chunk))
     for chunk in core.split(dense_cases(ctx), 16):
         jobs.append(("dense", chunk))
+    for case in wide_windows(ctx):
+        jobs.append(("wide", [case]))
     part = core.fan_out(ctx, _dispatch, jobs)
     from .. import callforms              # pylint: disable=import-outside-toplevel
     part.merge(callforms.explore("C09"))
@@ -432,7 +484,7 @@ def run(ctx):
 
 def _dispatch(job):
     return {"lists": _lists_chunk, "collinear": _collinear_chunk, "pred": _pred_chunk,
-            "scaled": _scaled_chunk, "dense": _dense_chunk}[job[0]](job[1])
+            "scaled": _scaled_chunk, "dense": _dense_chunk, "wide": _wide_chunk}[job[0]](job[1])
 
 
 def replay(case):
